@@ -62,6 +62,7 @@ type result struct {
 	ShrunkRuns int             `json:"shrunk_runs"`
 	Panics     int             `json:"panics"`
 	Variant    string          `json:"variant"`
+	Rule       string          `json:"rule"`
 }
 
 type job struct {
@@ -123,6 +124,8 @@ func init() {
 	for _, id := range []string{"C01", "C02", "C03", "C05"} {
 		addSpec(&propSpec{ID: id, Level: "exploration", QuickRuns: 1600, ThorRuns: 40000, QuickSecs: 75, ThorSecs: 900})
 	}
+	addSpec(&propSpec{ID: "C04", Level: "exploration", QuickRuns: 1600, ThorRuns: 40000, QuickSecs: 75, ThorSecs: 900})
+	addSpec(&propSpec{ID: "C12", Level: "exploration", QuickRuns: 1600, ThorRuns: 40000, QuickSecs: 75, ThorSecs: 900})
 	addSpec(&propSpec{ID: "C07", Level: "exploration", QuickRuns: 1200, ThorRuns: 30000, QuickSecs: 75, ThorSecs: 900})
 	addSpec(&propSpec{ID: "C09", Level: "exploration", Race: true, QuickRuns: 640, ThorRuns: 16000, QuickSecs: 90, ThorSecs: 1200})
 	addSpec(&propSpec{ID: "C14", Level: "exploration", QuickRuns: 1200, ThorRuns: 30000, QuickSecs: 75, ThorSecs: 900})
@@ -656,9 +659,15 @@ func (e *evidence) absorb(all []result) {
 	scheds := map[string]bool{}
 	cells := map[string]bool{}
 	var sim float64
-	steps, reqs, multi, panics := 0, 0, 0, 0
+	steps, reqs, multi, panics, variants := 0, 0, 0, 0, 0
 	var samples []any
 	for _, r := range all {
+		if r.Rule != "" {
+			e.Coverage["rule"] = r.Rule
+		}
+		if r.Variant != "" {
+			variants++
+		}
 		for k, v := range r.Faults {
 			faults[k] += v
 		}
@@ -705,6 +714,12 @@ func (e *evidence) absorb(all []result) {
 	e.Coverage["scheduling_decisions_with_choice"] = multi
 	e.Coverage["coverage_cells_reached"] = len(cells)
 	e.Coverage["handler_panics_recovered"] = panics
+	if variants > 0 {
+		e.Coverage["fault_position_variants"] = variants
+		e.Coverage["base_histories"] = len(all) - variants
+		e.Coverage["exhaustive"] = false
+		e.Coverage["enumeration_note"] = "histories are sampled by seed; for each sampled history every driver-call position of every synchronisation is faulted (error and crash): that per-history fault space is enumerated completely"
+	}
 	e.Coverage["components_real"] = commonReal
 	e.Coverage["components_stubbed"] = commonStub
 	var zero []string
